@@ -56,11 +56,16 @@ def run(ctx: Ctx) -> None:
         built = rng.choice(["fresh", "fresh", "cloned-layers", "copied-container", "cloned+copied", "pickled-container"]) \
             if depth and fi * fo * k <= 200_000 else "fresh"
         key = {"layer": kind, "fan_in": fi, "fan_out": fo, "kernel": k, "depth": depth, "container": container,
-               "eta": eta, "optimizer": opt_name, "constraint": "default" if default_c else None, "built": built}
+               "eta": eta, "optimizer": opt_name, "constraint": "default" if default_c else None, "built": built,
+               "unbatched": ci % 2 == 1, "tensor_lr": ci % 3 == 2, "bias": ci % 4 >= 2}
         ctx.count(key, bucket=f"{kind}/{container or 'standalone'}")
+
+        with_bias = ci % 4 >= 2      # a trainable bias next to the weight (its own update is taken out again below)
 
         def mk():
             kw = {} if default_c else {"constraint": None}
+            if with_bias:
+                kw["bias"] = True
             if kind == "Linear":
                 return uu.Linear(fi, fo, **kw)
             if kind == "LinearReadout":
@@ -89,17 +94,22 @@ def run(ctx: Ctx) -> None:
                 layer = [m for m in cont if (m.weight.shape[0], m.weight.shape[1]) == (fo, fi) and
                          type(m).__name__ == kind and (kind != "Conv1d" or m.weight.shape[2] == k)][0]
             layer = layer.to(dt)
+            unbatched = ci % 2 == 1          # "one example": with or without a leading batch dim of 1
             if kind == "Conv1d":
-                x = (torch.randint(0, 2, (1, fi, k)) * 2 - 1).to(dt)
+                x = (torch.randint(0, 2, (fi, k) if unbatched else (1, fi, k)) * 2 - 1).to(dt)
             else:
-                x = (torch.randint(0, 2, (1, fi)) * 2 - 1).to(dt)
-            opt = getattr(uo, opt_name)(layer.parameters(), lr=eta, eps=0.0, weight_decay=0.0)
+                x = (torch.randint(0, 2, (fi,) if unbatched else (1, fi)) * 2 - 1).to(dt)
+            lr_arg = torch.tensor(eta, dtype=dt) if ci % 3 == 2 else eta      # float or 0-dim tensor learning rate
+            opt = getattr(uo, opt_name)(layer.parameters(), lr=lr_arg, eps=0.0, weight_decay=0.0)
             y0 = layer(x)
             g = torch.randn(y0.shape, dtype=dt)
             g = torch.where(g.abs() < 1e-3, torch.ones_like(g), g)
             y0.backward(g)
+            b_old = layer.bias.detach().clone() if getattr(layer, "bias", None) is not None else None
             opt.step()
             with torch.no_grad():
+                if b_old is not None:
+                    layer.bias.copy_(b_old)       # the statement is about the weight update: undo the bias's own step
                 y1 = layer(x)
             delta = (y1 - y0.detach())
             ok = True
